@@ -114,7 +114,8 @@ Definition dense_step (c : dense) (_ : unit) (xs : list tensor) : res (dense * t
       | [] => Err ERuntime                      (* einops "b ... -> b (...)" on a 0-d tensor *)
       | b :: rest =>
           (* RecordTensor.push: observation must have the stored shape (B, in) *)
-          if negb ((b =? d_B c) && (nel rest =? insz c)) then Err EValue
+          (* (the last conjunct only says that x is a well-formed tensor: always true of a torch tensor) *)
+          if negb ((b =? d_B c) && (nel rest =? insz c) && (length (tel x) =? d_B c * insz c)) then Err EValue
           else
             let c' := set_syn c (upd (d_rows c) (d_ptr c) (map nz (tel x))) ((d_ptr c + 1) mod recordsz c) in
             Ok (c', mkT (d_B c :: d_out c) (concat (map (dense_out_row c') (seq 0 (d_B c)))))
@@ -176,7 +177,8 @@ Definition adapt_update (n : neuron) (cfg : list (R * R)) (lock : bool) (spk : l
               (nth j (n_adapt n) []) cfg)
       (seq 0 sz).
 Definition neuron_step (n : neuron) (kw : nkw) (x : tensor) : res (neuron * tensor) :=
-  if negb (shape_eqb (tsh x) (n_B n :: n_shape n)) then Err ERuntime
+  (* (the second conjunct only says that x is a well-formed tensor: always true of a torch tensor) *)
+  if negb (shape_eqb (tsh x) (n_B n :: n_shape n) && (length (tel x) =? n_B n * nsize n)) then Err ERuntime
   else
     let thr := concat (repeat (thresholds n) (n_B n)) in
     let r := zip4 (lif_elem n (k_lock kw)) thr (tel x) (n_volt n) (n_refr n) in
